@@ -1,6 +1,7 @@
 import GarbleVerif.Proofs.Encoding
 import GarbleVerif.Model.SrcSem
 import GarbleVerif.Proofs.BitWidth
+import GarbleVerif.Proofs.BitStatic
 /-!
 # C05 — accepted programs compile to valid circuits whose I/O shape matches their types
 
@@ -48,6 +49,18 @@ theorem C05_output_width (prog : Prog) (depth : Nat) (benv benv' : BEnv) (body :
     (p : P) (hw : WFB benv) (h : bitStmts ⟨callAt prog depth, prog.enum?⟩ benv body = some (t, bits, p, benv')) :
     bits.length = t.toTy.size :=
   (width_program prog depth benv benv' body t bits p hw h).1
+
+/-- **a typed function has the shape of its signature**: if the typing judgement of the compiler model accepts a
+function (`Bit.fnTyped`: the model run once, on all-zero wires), then for ANY wires on its parameters — as many per
+parameter as the parameter type has bits — the compiled call is inside the model and has exactly `size(ret)` output wires
+(`typed_call`: the verdict of the model does not depend on the wires, Proofs/BitStatic.lean) -/
+theorem C05_typed_output_width (prog : Prog) (f : String) (d : FnDef) (hfn : prog.fn? f = some d)
+    (hty : fnTyped prog d = true) (args : List (VTy × List Bool))
+    (htys : args.map (·.1) = d.params.map (fun xt => VTy.ofTy xt.2)) (hw : ArgsWF args) :
+    ∃ bs p, callAt prog (prog.fns.length + 2) f args = some (VTy.ofTy d.ret, bs, p) ∧ bs.length = d.ret.size := by
+  obtain ⟨bs, p, h⟩ := typed_call prog f d hfn hty args htys hw
+  have := callAt_wf prog (fun cb hcb => constEnvOf_wf _ _ cb hcb) (prog.fns.length + 2) f args _ _ _ h hw
+  exact ⟨bs, p, h, by rw [this, VTy.toTy_ofTy]⟩
 
 /-- non-vacuity: a `u8` parameter bound to eight wires -/
 example : WFB [("x", .s (.int .u8), List.replicate 8 true)] := by
